@@ -230,13 +230,13 @@ func (f *FieldDef) SQL() string {
 // Acc accumulates one field over the accepted points of a cell. It keeps the
 // components so that cells can be combined into coarse buckets exactly.
 type Acc struct {
-	SumA, SumB   float64
-	CntA, CntB   float64
-	MinA, MaxA   float64
-	SumAW, SumW  float64 // weighted
-	NA           int     // points with A present (after IF/BOUNDED)
-	NB           int
-	OutOfDomain  bool // a condition could not be evaluated by the reference
+	SumA, SumB  float64
+	CntA, CntB  float64
+	MinA, MaxA  float64
+	SumAW, SumW float64 // weighted
+	NA          int     // points with A present (after IF/BOUNDED)
+	NB          int
+	OutOfDomain bool // a condition could not be evaluated by the reference
 }
 
 // Add feeds one accepted point.
